@@ -637,6 +637,47 @@ pub fn run(tier: &str, prop: &str) -> i32 {
         }
     }
     rep.set("cpu_seconds_by_kind", json!({"full_dedup": ks[0], "deviation": ks[1], "partitions": ks[2], "const_budgets": ks[3]}));
+    // ---- the multi-slice entry point: every two-way split (and 1..5-byte pieces) delivered by
+    // iterators of each *kind* - exact size hint (slice iterator), no size hint (from_fn), lower
+    // bound 0 (filter) - must give what the one-slice call gives (verdict, count, bytes)
+    let mut slice_iter_runs = 0u64;
+    if prop == "C07" {
+        let idx: Vec<usize> = (0..ss.len()).filter(|&i| ss[i].bytes.len() <= 300).collect();
+        let res = par_for(idx.len(), || 0u64, |j, acc| {
+            let s = &ss[idx[j]];
+            watchdog::tick(9_000_000 + j as u64, 0);
+            let data = &s.bytes;
+            let cap = ref_inflate(data, &Opts::fmt(s.zlib)).out.len().max(s.plain.len()) + 64;
+            let one = guarded(|| {
+                let mut out = vec![0u8; cap];
+                let r = miniz_oxide::inflate::decompress_slice_iter_to_slice(&mut out, std::iter::once(&data[..]), s.zlib, false);
+                (r, out)
+            });
+            let Ok((r0, out0)) = one else {
+                rep.violation("C07/slice-iter/panic", format!("one-slice call panicked [{}]", s.desc), json!({"slice_iter": true, "stream_hex": hex(data), "zlib": s.zlib, "cut": 0, "kind": "once"}));
+                return;
+            };
+            let n0 = r0.unwrap_or(0);
+            let mut check = |kind: &str, cut: usize, got: Result<(Result<usize, TINFLStatus>, Vec<u8>), String>| {
+                *acc += 1;
+                match got {
+                    Err(p) => rep.violation("C07/slice-iter/panic", format!("{} iterator, split {}: panic {} [{}]", kind, cut, p, s.desc), json!({"slice_iter": true, "stream_hex": hex(data), "zlib": s.zlib, "cut": cut, "kind": kind})),
+                    Ok((r, out)) => {
+                        if r != r0 || (r.is_ok() && out[..n0] != out0[..n0]) {
+                            rep.violation(&format!("C07/slice-iter/{}", kind), format!("{} iterator, split {}: {:?}, one slice gives {:?} [{}]", kind, cut, r.map_err(status_name), r0.map_err(status_name), s.desc), json!({"slice_iter": true, "stream_hex": hex(data), "zlib": s.zlib, "cut": cut, "kind": kind}));
+                        }
+                    }
+                }
+            };
+            for cut in 0..=data.len() {
+                for kind in ["exact-hint", "from_fn", "filter"] {
+                    check(kind, cut, guarded(|| slice_iter_split(data, s.zlib, cap, cut, kind)));
+                }
+            }
+        });
+        slice_iter_runs = res.iter().sum();
+    }
+    rep.set("slice_iter_runs", json!(slice_iter_runs));
     rep.set("transitions_by_kind", json!({"full_dedup": kt[0], "deviation": kt[1], "partitions": kt[2], "const_budgets": kt[3]}));
     rep.set("states", json!(total.states));
     rep.set("transitions", json!(total.transitions));
@@ -669,7 +710,47 @@ pub fn run(tier: &str, prop: &str) -> i32 {
     rep.finish()
 }
 
+/// decompress_slice_iter_to_slice on `data` split at `cut` (cut > len: 1..5-byte pieces), the two
+/// pieces delivered by an iterator of the given kind.
+fn slice_iter_split(data: &[u8], zlib: bool, cap: usize, cut: usize, kind: &str) -> (Result<usize, TINFLStatus>, Vec<u8>) {
+    let mut out = vec![0u8; cap];
+    let parts: Vec<&[u8]> = vec![&data[..cut], &data[cut..]];
+    let r = match kind {
+        "exact-hint" => miniz_oxide::inflate::decompress_slice_iter_to_slice(&mut out, parts.iter().cloned(), zlib, false),
+        "from_fn" => {
+            let mut i = 0;
+            miniz_oxide::inflate::decompress_slice_iter_to_slice(
+                &mut out,
+                std::iter::from_fn(|| {
+                    i += 1;
+                    parts.get(i - 1).cloned()
+                }),
+                zlib,
+                false,
+            )
+        }
+        _ => miniz_oxide::inflate::decompress_slice_iter_to_slice(&mut out, data.chunks(cut.clamp(1, 5)).filter(|_| true), zlib, false),
+    };
+    (r, out)
+}
+
 pub fn replay(v: &Value, prop: &str) -> Option<String> {
+    if v.get("slice_iter").is_some() {
+        let data = unhex(v["stream_hex"].as_str()?);
+        let zl = v["zlib"].as_bool()?;
+        let cut = v["cut"].as_u64()? as usize;
+        let kind = v["kind"].as_str()?.to_string();
+        let cap = ref_inflate(&data, &Opts::fmt(zl)).out.len() + 64;
+        let one = guarded(|| slice_iter_split(&data, zl, cap, data.len(), "exact-hint"));
+        let got = guarded(|| slice_iter_split(&data, zl, cap, cut.min(data.len()), &kind));
+        return match (one, got) {
+            (Ok((r0, o0)), Ok((r, o))) => {
+                let n0 = r0.unwrap_or(0);
+                if r != r0 || (r.is_ok() && o[..n0] != o0[..n0]) { Some(format!("{:?} vs one slice {:?}", r.map_err(status_name), r0.map_err(status_name))) } else { None }
+            }
+            _ => Some("panic".into()),
+        };
+    }
     if v.get("limit").is_some() {
         let s = unhex(v["stream_hex"].as_str()?);
         let plain = unhex(v["plain_hex"].as_str()?);
